@@ -123,6 +123,8 @@ func init() {
 		build: func(r *Result, vals map[string]string) (interface{}, bool) { return "fixed scenario", true }}
 	replayFamilies[modPath+".(*DB).replaceDocs$1"] = &replayFamily{pkgDir: ".", testFile: "clover_replay_test.go", testName: "TestVerifReplayBulkUnderCursor",
 		build: func(r *Result, vals map[string]string) (interface{}, bool) { return "fixed scenario", true }}
+	replayFamilies[modPath+".(*DB).ListIndexes"] = &replayFamily{pkgDir: ".", testFile: "clover_replay_test.go", testName: "TestVerifReplayListIndexesMissing",
+		build: func(r *Result, vals map[string]string) (interface{}, bool) { return "fixed scenario", true }}
 	imp := &replayFamily{pkgDir: ".", testFile: "clover_replay_test.go", testName: "TestVerifReplayImport",
 		build: func(r *Result, vals map[string]string) (interface{}, bool) { return "fixed scenario", true }}
 	replayFamilies[modPath+".(*DB).ImportCollection"] = imp
